@@ -330,6 +330,53 @@ theorem drain : ∀ (order : List (Nat × List IE)) (sets : List SetB) (times : 
           exact ⟨hmsg, h2⟩
 
 
+/-! ## A refresh that cannot be built -/
+
+/-- DecodeAndCreateInfoElementWithValue(ie, nil) refuses the two sub-millisecond time types -/
+theorem zeroValue_err_of_micro_nano (ie : IE)
+    (h : ie.ty = .dateTimeMicroseconds ∨ ie.ty = .dateTimeNanoseconds) : zeroValue ie = .err := by
+  unfold zeroValue
+  rcases h with h | h <;> rw [h]
+
+theorem zeroElems_none_of_mem : ∀ (ies : List IE) (ie : IE), ie ∈ ies → zeroValue ie = .err → zeroElems ies = none
+  | [], _, h, _ => by simp at h
+  | x :: t, ie, h, hz => by
+    unfold zeroElems
+    rcases List.mem_cons.mp h with rfl | ht
+    · rw [hz]
+    · rw [zeroElems_none_of_mem t ie ht hz]
+      cases zeroValue x <;> rfl
+
+/-- one element without a zero value and MakeTemplateSet fails, whatever else the template contains -/
+theorem makeTemplateSet_none_of_mem (tid : Nat) (ies : List IE) (ie : IE) (h : ie ∈ ies) (hz : zeroValue ie = .err) :
+    makeTemplateSet tid ies = none := by
+  unfold makeTemplateSet
+  rw [zeroElems_none_of_mem ies ie h hz]
+
+/-- one template that cannot be rebuilt and the refresher's first loop fails, wherever the map iteration puts it -/
+theorem buildAll_none_of_mem : ∀ (l : List (Nat × List IE)) (p : Nat × List IE), p ∈ l →
+    makeTemplateSet p.1 p.2 = none → buildAll l = none
+  | [], _, h, _ => by simp at h
+  | q :: rest, p, h, hm => by
+    unfold buildAll
+    rcases List.mem_cons.mp h with rfl | hr
+    · rw [hm]
+    · rw [buildAll_none_of_mem rest p hr hm]
+      cases makeTemplateSet q.1 q.2 <;> rfl
+
+/-- sendRefreshedTemplates on an open UDP process with a recorded template it cannot rebuild: the tick IS a close -/
+theorem refreshTick_unbuildable (st : LState) (prio : Nat → Nat) (tid : Nat) (ies : List IE)
+    (hudp : st.proto = .udp) (hopen : st.closed = false) (hidle : st.pending = [])
+    (hrec : (tid, ies) ∈ st.tpls) (hfail : makeTemplateSet tid ies = none) :
+    st.refreshTick prio = st.doClose := by
+  have hmem : (tid, ies) ∈ refreshOrder prio st.tpls := (refreshOrder_perm prio st.tpls).mem_iff.mpr hrec
+  unfold LState.refreshTick
+  rw [if_pos ⟨hudp, hopen, hidle⟩, buildAll_none_of_mem _ (tid, ies) hmem hfail]
+
+theorem doClose_open (st : LState) (h : st.closed = false) :
+    st.doClose = { st with closed := true, stopCloses := st.stopCloses + 1, pending := [] } := by
+  unfold LState.doClose; simp [h]
+
 /-! ## After close -/
 
 theorem doClose_idem (st : LState) : st.doClose.doClose = st.doClose :=
